@@ -220,12 +220,17 @@ func (c *coalescer) run() {
 	for {
 		select {
 		case <-c.done:
-			// Drain anything still buffered and exit. Submit refuses new
+			// Drain everything still buffered and exit. Submit refuses new
 			// enqueues once done is closed, so the channel is a bounded
-			// set at this point.
-			drainReady()
-			flush()
-			return
+			// set at this point; it can hold up to 4*maxBatch messages,
+			// so keep flushing batch after batch until it is empty.
+			for {
+				drainReady()
+				if len(batch) == 0 {
+					return
+				}
+				flush()
+			}
 		case m := <-c.in:
 			batch = append(batch, m)
 			drainReady()
